@@ -324,6 +324,17 @@ func TestReplay(t *testing.T) {
 }
 
 func replayEnv(t *testing.T, e *hx.Envelope) {
+	if e.Test == "overlap" {
+		var oc OCase
+		if err := json.Unmarshal(e.Case, &oc); err != nil {
+			t.Fatalf("bad case: %v", err)
+		}
+		if err := executeOverlap(e.Test, &oc); err != nil {
+			hx.Violation(e.Test, &oc, err.Error())
+			t.Fatalf("%v", err)
+		}
+		return
+	}
 	var c Case
 	if err := json.Unmarshal(e.Case, &c); err != nil {
 		t.Fatalf("bad case: %v", err)
